@@ -163,6 +163,7 @@ class HeapAnalyser:
         self.exits: List[Tuple[Zone, int]] = []
         self.call_states: Dict[str, List[Tuple[Zone, List[Form]]]] = {}
         self.unhandled: List[str] = []
+        self.imprecise: Set[str] = set()
         self._cont: List[List[Zone]] = []
         self._brk: List[List[Zone]] = []
         self.modifies: Dict[str, bool] = {}
@@ -486,6 +487,11 @@ class HeapAnalyser:
                         f.bottom = True
                     return t, f
                 t, f = st.copy(), st.copy()
+                if (fa is None or fb is None) and any(("*" in (strip(c_).props.get("type") or "") and "HeapEntry" in (strip(c_).props.get("type") or "")) or self._is_int(c_)
+                                                         for c_ in n.children[:2]):
+                    # a comparison of positions that the zone domain cannot express (pointers into the array, products): what
+                    # follows is analysed without it.  (Comparisons of times -- doubles -- never bound an index.)
+                    self.imprecise.add(self.fn)
                 if fa is not None and fb is not None:
                     self._constrain(t, fa, op, fb)
                     self._constrain(f, fa, {"<": ">=", "<=": ">", ">": "<=", ">=": "<", "==": "!=", "!=": "=="}[op], fb)
@@ -721,6 +727,20 @@ def analyse_heap(unit: CUnit) -> Tuple[List[Obligation], Dict[str, object]]:
                                       "the callers assume the helper changes only the entries"))
         info["functions"].append(f"{h} [join of {len(an.call_states[h])} call sites: {entry.describe()}]")
     obligations.extend(an.obligations)
+    # A helper that itself changes length / size is outside the model (callers are analysed as if a helper touched the entries
+    # only): nothing derived from that assumption may be reported as a violation -- the zone verdicts become undecided.
+    shape_helpers = [h for h in helpers if an.modifies.get(h, False)]
+    if shape_helpers:
+        for o in obligations:
+            if o.rule.startswith("R6.2") and o.ok is False:
+                o.ok = None
+                o.why = f"helper(s) {shape_helpers} change length / size: interprocedural effect not modelled; " + o.why
+    # a function with a branch condition outside the zone domain is analysed without that condition: what could not be proved there
+    # is undecided, not violated
+    for o in obligations:
+        if o.rule.startswith("R6.2") and o.ok is False and o.fn in an.imprecise:
+            o.ok = None
+            o.why = "a branch condition of this function is outside the zone domain (e.g. a pointer comparison); " + o.why
     # construct_heap establishes the empty disjunct: allocation by calloc (zeroed)
     ch = unit.functions.get("construct_heap")
     if ch is not None:
